@@ -1210,12 +1210,12 @@ fn lower_expr_with_args(
                             } else {
                                 let mut combined_args = args;
                                 combined_args.extend(trailing_args);
-                                lower_expr_with_args(ctx, other, combined_args)
+                                lower_call_under_operator(ctx, other, combined_args)
                             }
                         } else {
                             let mut combined_args = args;
                             combined_args.extend(trailing_args);
-                            lower_expr_with_args(ctx, other, combined_args)
+                            lower_call_under_operator(ctx, other, combined_args)
                         }
                     }
                 };
@@ -1795,6 +1795,64 @@ fn lower_expr_with_args(
                 body: Box::new(body),
                 astptr,
             })
+        }
+    }
+}
+
+/// The callee of a call is an operator expression (`-f(x)` is parsed as a call
+/// of `-f`): the arguments belong to its last operand. An empty argument list
+/// is still a call, which `apply_trailing_args` cannot express.
+fn lower_call_under_operator(
+    ctx: &mut LowerCtx,
+    callee: cst::Expr,
+    args: Vec<ast::Expr>,
+) -> Option<ast::Expr> {
+    if !args.is_empty() {
+        return lower_expr_with_args(ctx, callee, args);
+    }
+    let range = callee.syntax().text_range();
+    let lowered = lower_expr_with_args(ctx, callee, Vec::new())?;
+    apply_empty_call(ctx, lowered, range)
+}
+
+fn apply_empty_call(ctx: &mut LowerCtx, expr: ast::Expr, range: TextRange) -> Option<ast::Expr> {
+    match expr {
+        ast::Expr::EUnary { op, expr, astptr } => {
+            let expr = apply_empty_call(ctx, *expr, range)?;
+            Some(ast::Expr::EUnary {
+                op,
+                expr: Box::new(expr),
+                astptr,
+            })
+        }
+        ast::Expr::EBinary {
+            op,
+            lhs,
+            rhs,
+            astptr,
+        } => {
+            let rhs = apply_empty_call(ctx, *rhs, range)?;
+            Some(ast::Expr::EBinary {
+                op,
+                lhs,
+                rhs: Box::new(rhs),
+                astptr,
+            })
+        }
+        ast::Expr::EConstr { .. } => Some(expr),
+        ast::Expr::EPath { astptr, .. }
+        | ast::Expr::ECall { astptr, .. }
+        | ast::Expr::EField { astptr, .. } => Some(ast::Expr::ECall {
+            func: Box::new(expr),
+            args: Vec::new(),
+            astptr,
+        }),
+        other => {
+            ctx.push_error(
+                Some(range),
+                format!("Cannot apply arguments to expression {:?}", other),
+            );
+            None
         }
     }
 }
